@@ -98,7 +98,7 @@ def synth_catalogue(F, c):
     # into the first batches of 20 groups: a batch then returns fewer islands than it was given
     rng = np.random.default_rng(c["field"]["seed"] + 23)
     rows, cols = F["shape"]
-    nextra = int(rng.integers(0, 4))
+    nextra = int(c.get("unmeasurable") or rng.integers(0, 4))
     for k in range(nextra):
         s = ComponentSource()
         ra, dec = (float(v) for v in F["w"].pix2sky(-30.0 - 10 * k, rows / 2.0))
@@ -112,7 +112,7 @@ def synth_catalogue(F, c):
         s.err_pa = 1.0
         s.psf_a, s.psf_b, s.psf_pa = F["beam"][0] * 3600, F["beam"][1] * 3600, F["beam"][2]
         s.uuid = "syn-off-%d" % k
-        out.insert(int(rng.integers(0, max(1, min(len(out), 25)))), s)
+        out.insert(int(rng.integers(0, max(1, min(len(out), 10 if c.get("unmeasurable") else 25)))), s)
     # renumber the islands in list order (keeping the members of an island together)
     remap, nxt = {}, 0
     for s in out:
@@ -383,7 +383,17 @@ def check_case(c):
     return res
 
 
+def batches_case(c):
+    """priorized fitting in batches of 20 groups where the FIRST batch loses groups: isolated single-component islands on a
+    noise-free field, 1-3 unmeasurable catalogue entries among the first ten rows (cheap: a second or two per case)"""
+    fc = dict(c["field"], blend_rate=0.0, noise="none", mixed_rate=0.0, spikes=0, specks=0, nan_rects=0, neg_rate=0.0)
+    return dict(c, mode="prior-synth", field=fc, unmeasurable=1 + c["field"]["seed"] % 3, rerun="none", cli=False, table=None,
+                far=0, intpix=None, cores=1, ngroups=21 + c["ngroups"] % 30)
+
+
 TESTS = {
     "catalogue": {"strategy": lambda tier: case_strategy, "check": check_case,
                   "n": {"quick": 64, "thorough": 3000}},
+    "batches": {"strategy": lambda tier: case_strategy.map(batches_case), "check": check_case,
+                "n": {"quick": 32, "thorough": 600}},
 }
